@@ -47,10 +47,10 @@ func init() {
 		Technique: "runtime monitoring: event-log model checker (slot, wake-up and request accounting, per-client order, convergence at event-defined quiescence) + client-side receive order + goroutine-state stall oracle + race detector",
 		DesignRef: "§4 C44, §2.3",
 		Rule:      "one case = one history; non-trivial when ≥3 distinct versions were delivered to some client and ≥1 compile request was coalesced; distinct by plan",
-		Race:      true, Needs: []string{"d2race"}, Chunk: 1, CPUBudget: 1800, WallBudget: 3000, MinNontrivial: 3,
+		Race:      true, Needs: []string{"d2race"}, Chunk: 1, Workers: 10, CPUBudget: 3600, WallBudget: 6000, MinNontrivial: 3,
 		Gen: genC44, Exec: execC44, Post: postC44,
 		Assumptions: []string{
-			"verdicts are decided on the logged event order and event-count quiescence, never on elapsed time; the watchdog (no event logged for 300 s, or one wait longer than 20 min) only yields inconclusive",
+			"verdicts are decided on the logged event order and event-count quiescence, never on elapsed time; the watchdog (no event logged for 900 s, or one wait longer than 40 min) only yields inconclusive",
 			"'eventually' is restated as: delivered by the time the system is quiescent after a compile request that follows the last completed write",
 			"interleavings are those produced by the stress plan and failpoints; their number is reported, all interleavings are not claimed",
 		},
